@@ -118,6 +118,22 @@ def build_coq():
              os.path.getmtime(os.path.join(COQ, s[:-2] + ".vo")) >= os.path.getmtime(os.path.join(COQ, s))
              for s in srcs}
     errors = re.findall(r'File "\./([^"]+)", line (\d+), characters [^\n]*\n((?:(?!make|COQC|File ").*\n){0,12})', out)
+    # a file that failed to compile may still have the .vo of an earlier build lying around: it is not built
+    for f, _, _ in errors:
+        if f in built:
+            built[f] = False
+    # ... and neither is anything compiled against an older version of one of its dependencies
+    def vo_time(s_):
+        try:
+            return os.path.getmtime(os.path.join(COQ, s_[:-2] + ".vo"))
+        except OSError:
+            return 0
+    for s_ in srcs:
+        if built.get(s_):
+            for d_ in coq_deps(s_):
+                if d_ != s_ and d_ in built and (not built[d_] or vo_time(d_) > vo_time(s_) + 1e-6):
+                    built[s_] = False
+                    break
     return {"ok": rc == 0 and all(built.values()), "built": built, "log": out[-8000:],
             "errors": [{"file": f, "line": int(l), "msg": m.strip()[:1500]} for f, l, m in errors],
             "wall_s": round(time.time() - t0, 2)}
@@ -157,7 +173,7 @@ def coq_deps(rel):
         p = os.path.join(COQ, f)
         if not os.path.exists(p):
             continue
-        for m in re.finditer(r"From\s+Zeno\s+Require\s+(?:Import|Export)\s+([^.]*(?:\.[A-Za-z_][^.\s]*)*)\.", open(p).read()):
+        for m in re.finditer(r"From\s+Zeno\s+Require\s+(?:(?:Import|Export)\s+)?([^.]*(?:\.[A-Za-z_][^.\s]*)*)\.", open(p).read()):
             for name in m.group(1).split():
                 name = name.split(".")[-1]
                 if name in byname:
